@@ -24,7 +24,7 @@ import (
 
 var profC20 = Profile{
 	MaxProcs: 5, MaxItems: 3, Bufsizes: []int{0, 1, 2}, MaxSlots: 5,
-	Params: true, MultiOut: true, FanIn: true, FanOut: true, TwoSources: true, Zip: true, ParamSrc: true,
+	Params: true, MultiOut: true, FanIn: true, FanOut: true, TwoSources: true, Zip: true, ParamSrc: true, Joins: true,
 }
 
 func exportTree(root *simrt.Inode, dir string, only func(path string) bool) error {
@@ -133,6 +133,10 @@ func init() {
 				// must treat them the same way
 				if w.Nodes[i].Kind == KProc && c.Tape.Choose(simrt.StGen, 4, 0) == 1 {
 					w.Nodes[i].Prefix = "false |"
+				}
+				// in-paths not preceded by white space (--opt=PATH style)
+				if w.Nodes[i].Kind == KProc && c.Tape.Choose(simrt.StGen, 4, 0) == 1 {
+					w.Nodes[i].GlueIn = true
 				}
 			}
 			ex := Eval(w)
